@@ -693,7 +693,7 @@ func (p *Prog) syncUnderWriterLock(logF *bitFlow) []Ob {
 		if fn == nil {
 			continue
 		}
-		ob := Ob{Rule: "R1", Inst: "I8:Log." + name + ":fsync-under-writer-lock", Props: []string{"C06"}, Pos: p.posStr(fn.Pos()), Func: funcLabel(fn), Nontrivial: true}
+		ob := Ob{Rule: "R1", Inst: "I8:Log." + name + ":fsync-under-writer-lock", Props: []string{"C06", "C08"}, Pos: p.posStr(fn.Pos()), Func: funcLabel(fn), Nontrivial: true}
 		var bad []string
 		n := 0
 		for _, b := range fn.Blocks {
